@@ -133,6 +133,15 @@ def eval_doc(args):
         b3 = []; check(d3, root, dict(um), b3, attrs=True)
         if b3 and b3[0][0] == KNOWN_B: return dict(doc=doc, ver=ver, known=KNOWN_B)
         if b3: return dict(doc=doc, ver=ver, problem=dict(user_map=um, path=b3[0][0], keys=b3[0][1], expected=b3[0][2]))
+    # the other processing modes that keep namespace information: every declaration collapsed on the root (colliding prefixes renamed), with and without a user map
+    # (only documents that declare no default namespace: one map for the whole document cannot say that the default namespace is unset or changes below the root)
+    for mode in (('collapsed',) if ' xmlns="' not in doc else ()):
+        for um in (None, {'p': 'urn:zzz'}, {'p': 'urn:w', 'q': 'urn:u'}, {'q': 'urn:zzz', 'z': 'urn:v'}):
+            try: d4 = s.decode(doc, validation='lax', xmlns_processing=mode, **({'namespaces': um} if um else {}))[0]
+            except Exception as e: return dict(doc=doc, ver=ver, problem=f'decode with xmlns_processing={mode!r} namespaces={um} raised {type(e).__name__}: {e}')
+            b4 = []; check(d4, root, dict(um or {}), b4, attrs=True)
+            if b4 and b4[0][0] == KNOWN_B: continue
+            if b4: return dict(doc=doc, ver=ver, problem=dict(xmlns_processing=mode, user_map=um, path=b4[0][0], keys=b4[0][1], expected=b4[0][2]))
     # encode restores the expanded names.  Decided for documents of at most three element levels; deeper documents are reported only:
     # below a wildcard-matched grandchild the encoder loses track of the nesting level and pops xmlns contexts too early (an open
     # defect outside the three-level scope, see DESIGN.md)
